@@ -156,3 +156,10 @@ package driver
 //@   mustcall New report: $arg0 == p when $res2 == nil
 //@   callsite applyFocus same_profile: $arg0 == p && $arg1 == numLabelUnits
 //@   callsite aggregate same_profile: $arg0 == p
+
+// ---- C19: readSettings — every configuration read from the file has its transient fields reset, in place (one call per
+// list element, on that element) ----
+//@ func readSettings nosafety
+//@   callsite config.resetTransient element: 0 <= i && i < len(settings.Configs)
+//@   loop 1
+//@     mustcall config.resetTransient each: true when true
